@@ -337,7 +337,7 @@ def _chain_callee(op):
 merge_callee = Contract(qualname=EL + "_attempt_wire_merge", params={"self": _OPQ, "expr": _OPQ, "left_ref": _OPQ, "right_ref": _OPQ, "result_type": _OPQ},
                         returns=ty.TOpt(ty.TObj("SignalRef", only=("SignalRef",))),
                         callee_ensures=[("a merged wire carries the sum", lambda a, res: True if res is None else den(res) == A.wrap32(den(a.left_ref) + den(a.right_ref)))],
-                        verify=False, note="ASSUMED: wire merge of two same-typed sources adds on the wire (S2 network sum; K7 isolation)")
+                        verify=False, note="proved in contracts.c01b (_attempt_wire_merge: each operand an integer, a simple source or a two-member merge) from the S2 network-sum assumption stated there")
 
 _BIN_OPS = ["+", "-", "*", "/", "%", "**", "<<", ">>", "AND", "OR", "XOR", "==", "!=", "<", "<=", ">", ">=", "&&", "||"]
 for _op in _BIN_OPS:
